@@ -295,7 +295,16 @@ func init() {
 				continue
 			}
 			k := 0
+			// the function itself, its closures, and same-package helpers it calls (the error response may be built by a helper)
+			scope := append([]*ssa.Function{}, withAnons(f)...)
 			for _, g := range withAnons(f) {
+				for _, s := range sitesOf(g) {
+					if s.Callee != nil && s.Callee.Pkg == f.Pkg && len(s.Callee.Blocks) > 0 && s.Callee.Name() != "handleRequest" && s.Callee.Signature.Results().Len() == 1 && isNamed(s.Callee.Signature.Results().At(0).Type(), "jsonrpc", "response") {
+						scope = append(scope, s.Callee)
+					}
+				}
+			}
+			for _, g := range scope {
 				allInstrs(g, func(in ssa.Instruction) {
 					st, ok := in.(*ssa.Store)
 					if !ok {
